@@ -7,7 +7,7 @@ with per-session order, no session panics or deadlocks, and the database reopens
 
 For the code that exists the unrestricted statement is FALSE; the refutations below are
 schedules taken from the real implementation (the check replays them on it):
-`create_create_witness`, `drop_vs_insert_witness`, `drop_drop_bound_panic_witness`
+`drop_vs_insert_witness`
 (and C09's two witnesses for DELETE vs compaction); `drop_vs_compaction_regression` and
 `drop_dv_vs_compaction_regression` are the regression inputs of two defects fixed in /repo 6efcfe7.  What is proved for every schedule:
 `exactly_once`, `epoch_counts_commits`; and for the restricted fragment {INSERT, SELECT,
@@ -168,7 +168,7 @@ theorem dvDels_nil {sp : Snap} (h : sp.dvs = []) (sel : List Key) : dvDels sp se
 schedule (no restriction any more since /repo 6efcfe7): the epoch-continuity assert of phase B,
 `get_rowset(..).unwrap()` on a pinned snapshot, and the `unwrap`s of `Snapshot::delete_rowset` /
 `delete_dv` in phase A.  (Kept under its old name; what is still restricted is the panic in
-`executor::Builder::new`, see `no_panic_unrestricted_false`.) -/
+`executor::Builder::new` was removed by /repo 25ba285, see `panic_never_enabled`.) -/
 theorem no_panic_partial {s : Sys} (h : Inv s) :
     (∀ th f, s.k.infl = some (th, f) → f.base = s.k.epoch)
     ∧ (∀ p ∈ s.k.pins, ∀ t, ∃ rows, rowsAt? s.k.pool (s.k.status p.2) t = some rows)
@@ -184,12 +184,12 @@ theorem no_panic_partial {s : Sys} (h : Inv s) :
 /-- Two `CREATE TABLE t3` both pass the binder's existence check; both log a CreateTable record;
 the second fails when applying to the catalog. -/
 def createCreateSchedule : List Act :=
-  [.cmdBegin (0,0) (.create 1), .bound (0,0), .commitBegin (0,1), .commitA (0,1), .append (0,1),
-   .committed (0,1), .createApplied (0,1), .cmdDone (0,0), .cmdBegin (1,0) (.create 3),
-   .cmdBegin (2,0) (.create 3), .pin (1,0), .txnPinned (1,0) .ro 0, .unpin (1,0) 2, .bound (1,0),
-   .pin (2,0), .txnPinned (2,0) .ro 0, .unpin (2,0) 2, .bound (2,0), .commitBegin (1,1),
-   .commitA (1,1), .append (1,1), .committed (1,1), .createApplied (1,1), .cmdDone (1,0),
-   .commitBegin (2,1), .commitA (2,1), .append (2,1), .committed (2,1), .cmdDone (2,0)]
+  [.cmdBegin (0,0) (.create 1), .bound (0,0), .lockBegin (0,1), .commitBegin (0,1),
+   .commitA (0,1), .append (0,1), .committed (0,1), .createApplied (0,1), .cmdDone (0,0),
+   .cmdBegin (1,0) (.create 3), .cmdBegin (2,0) (.create 3), .pin (1,0), .txnPinned (1,0) .ro 0,
+   .unpin (1,0) 2, .bound (1,0), .pin (2,0), .txnPinned (2,0) .ro 0, .unpin (2,0) 2, .bound (2,0),
+   .lockBegin (1,1), .commitBegin (1,1), .commitA (1,1), .append (1,1), .committed (1,1),
+   .createApplied (1,1), .cmdDone (1,0), .lockBegin (2,1), .cmdDone (2,0)]
 
 /-- REGRESSION INPUT (was `sched:drop-vs-compaction-empty-output-panic`, fixed in /repo 6efcfe7):
 `DROP TABLE t1` commits while the compactor (all rows of t1 deleted: empty output, only
@@ -235,11 +235,13 @@ def createRecords (acts : List Act) (n : Nat) : Nat :=
 def resultsOf (acts : List Act) : List (Nat × Bool) :=
   (stateOf acts).outs.map (fun o => (o.1.1, match o.2.2 with | .rows _ => true | .ok => true | _ => false))
 
-/-- Both sessions log a create record for the same name (the manifest then has two, and replaying
-it fails with "duplicated table"), one session is acknowledged, the other gets an error. -/
-theorem create_create_witness :
+/-- REGRESSION (was `sched:create-create-same-name`, fixed in /repo 60f6d7f): both sessions pass
+the binder, but CREATE TABLE now checks the name again under the DDL lock before logging: one
+CreateTable record, one session acknowledged, the other gets "duplicated" — and the manifest
+replays. -/
+theorem create_create_regression :
     (run init createCreateSchedule).isSome = true
-    ∧ createRecords createCreateSchedule 3 = 2
+    ∧ createRecords createCreateSchedule 3 = 1
     ∧ ((stateOf createCreateSchedule).catalog.filter (fun p => p.1 == 3)).length = 1
     ∧ (resultsOf createCreateSchedule).filter (fun r => r.1 != 0) = [(1, true), (2, false)] := by
   decide
